@@ -1475,6 +1475,37 @@ func (in *Interp) doCall(f *frame, c *ssa.CallCommon) Value {
 				return a
 			}
 			fail("len of %T", args[0])
+		case "min", "max":
+			// on concrete (public) integers only: loop bounds, sizes
+			best, ok := args[0].(Conc)
+			if !ok {
+				fail("builtin %s on a symbolic (input-dependent) value", callee.Name())
+			}
+			n, signed := width(c.Args[0].Type())
+			val := func(v Conc) *big.Int {
+				if signed {
+					return signedVal(v.v, n)
+				}
+				return v.v
+			}
+			for _, a := range args[1:] {
+				v, ok := a.(Conc)
+				if !ok {
+					fail("builtin %s on a symbolic (input-dependent) value", callee.Name())
+				}
+				if (callee.Name() == "min") == (val(v).Cmp(val(best)) < 0) {
+					best = v
+				}
+			}
+			return best
+		case "clear":
+			if s, ok := args[0].(SliceV); ok {
+				for _, cl := range s.cells {
+					leaves(cl, func(l *Cell) { l.val = zeroValue(l.typ) })
+				}
+				return nil
+			}
+			fail("builtin clear on %T", args[0])
 		case "append":
 			dst, ok := args[0].(SliceV)
 			if !ok {
